@@ -8,7 +8,7 @@ Open Scope Z_scope.
 (* tie T: the tag numbers are those of kmip/core/enums.py *)
 Definition tag_named (n : string) (t : Z) : bool :=
   existsb (fun p => String.eqb (fst p) n && (snd p =? t)) E_Tags.
-Lemma tags_match_enums :
+Definition tags_match_enums_statement : Prop :=
   tag_named "REQUEST_MESSAGE" T_REQUEST_MESSAGE && tag_named "REQUEST_HEADER" T_REQUEST_HEADER &&
   tag_named "PROTOCOL_VERSION" T_PROTOCOL_VERSION && tag_named "PROTOCOL_VERSION_MAJOR" T_MAJOR &&
   tag_named "PROTOCOL_VERSION_MINOR" T_MINOR && tag_named "BATCH_COUNT" T_BATCH_COUNT &&
@@ -18,6 +18,7 @@ Lemma tags_match_enums :
     (combine ["MAXIMUM_RESPONSE_SIZE"; "ASYNCHRONOUS_INDICATOR"; "AUTHENTICATION"; "BATCH_ERROR_CONTINUATION_OPTION";
               "BATCH_ORDER_OPTION"; "TIME_STAMP"]%string HEADER_OPTIONALS) &&
   forallb (fun p => tag_named (fst p) (snd p)) (combine ["EPHEMERAL"; "UNIQUE_BATCH_ITEM_ID"]%string ITEM_OPTIONALS) = true.
+Lemma tags_match_enums : tags_match_enums_statement.
 Proof. vm_compute. reflexivity. Qed.
 
 Lemma cat2_some a b bs : cat2 a b = Some bs -> exists x y, a = Some x /\ b = Some y /\ bs = x ++ y.
@@ -71,6 +72,15 @@ Proof.
   rewrite He in E. injection E as <-. apply D.
 Qed.
 
+Lemma int_dec mem tag x bs rest :
+  tag_ok tag = true -> wf_prim mem (VInt x) = true -> enc_prim tag (VInt x) = Some bs ->
+  dec_prim mem PInt tag (bs ++ rest) = Some (VInt x, rest).
+Proof. apply (prim_dec mem tag (VInt x)). Qed.
+Lemma enum_dec mem tag x bs rest :
+  tag_ok tag = true -> wf_prim mem (VEnum x) = true -> enc_prim tag (VEnum x) = Some bs ->
+  dec_prim mem PEnum tag (bs ++ rest) = Some (VEnum x, rest).
+Proof. apply (prim_dec mem tag (VEnum x)). Qed.
+
 Lemma version_wf v : wf_prim anyint (VInt (fst (version_pair v))) = true /\ wf_prim anyint (VInt (snd (version_pair v))) = true.
 Proof. destruct v; vm_compute; auto. Qed.
 
@@ -102,20 +112,20 @@ Proof.
   rewrite (dec_struct_enc T_REQUEST_HEADER _ hh _ eq_refl Hhh).
   (* protocol version struct inside the header body *)
   rewrite (dec_struct_enc T_PROTOCOL_VERSION _ pvh _ eq_refl Hpvh).
-  rewrite (prim_dec anyint T_MAJOR _ mj mn eq_refl Wmj Hmj). cbn [ptype_of].
+  rewrite (int_dec anyint T_MAJOR _ mj mn eq_refl Wmj Hmj).
   rewrite <- (app_nil_r mn) at 1.
-  rewrite (prim_dec anyint T_MINOR _ mn [] eq_refl Wmn Hmn). cbn [ptype_of is_nil negb].
+  rewrite (int_dec anyint T_MINOR _ mn [] eq_refl Wmn Hmn). cbn [is_nil negb].
   (* optional header fields are absent: the next tag is BATCH_COUNT *)
   replace (absent HEADER_OPTIONALS bc) with true.
   2:{ symmetry. unfold absent, HEADER_OPTIONALS. rewrite <- (app_nil_r bc). cbn [forallb].
       rewrite !(is_tag_next_prim _ T_BATCH_COUNT (VInt 1) bc [] eq_refl Hbc). reflexivity. }
   cbn [negb].
   rewrite <- (app_nil_r bc) at 1.
-  rewrite (prim_dec anyint T_BATCH_COUNT (VInt 1) bc [] eq_refl eq_refl Hbc). cbn [ptype_of is_nil negb Z.eqb Pos.eqb].
+  rewrite (int_dec anyint T_BATCH_COUNT 1 bc [] eq_refl eq_refl Hbc). cbn [is_nil negb Z.eqb Pos.eqb].
   (* the batch item *)
   rewrite <- (app_nil_r (ih ++ _)).
   rewrite (dec_struct_enc T_BATCH_ITEM _ ih [] eq_refl Hih).
-  rewrite (prim_dec opmem T_OPERATION (VEnum opc) ops _ eq_refl Wop Hops). cbn [ptype_of].
+  rewrite (enum_dec opmem T_OPERATION opc ops _ eq_refl Wop Hops).
   replace (absent ITEM_OPTIONALS (plh ++ payload)) with true.
   2:{ symmetry. unfold absent, ITEM_OPTIONALS. cbn [forallb].
       rewrite !(is_tag_next_hdr _ T_REQUEST_PAYLOAD STRUCT_CODE (zlen payload) plh payload eq_refl Hplh). reflexivity. }
@@ -135,10 +145,8 @@ Proof.
   unfold hdr in Hmh. destruct ((0 <=? zlen mbody) && (zlen mbody <? TWO32)) eqn:E; [|discriminate].
   assert (mh = be_enc 3 T_REQUEST_MESSAGE ++ [STRUCT_CODE] ++ be_enc 4 (zlen mbody)) by congruence; subst mh; clear Hmh. split.
   - rewrite !zlen_app, !zlen_be_enc. reflexivity.
-  - change (be_enc 3 T_REQUEST_MESSAGE ++ [STRUCT_CODE] ++ be_enc 4 (zlen mbody))
-      with ((be_enc 3 T_REQUEST_MESSAGE ++ [STRUCT_CODE]) ++ be_enc 4 (zlen mbody)).
-    rewrite skipn_app. replace (skipn 4 (be_enc 3 T_REQUEST_MESSAGE ++ [STRUCT_CODE])) with (@nil Z) by reflexivity.
-    simpl app. replace (4 - length (be_enc 3 T_REQUEST_MESSAGE ++ [STRUCT_CODE]))%nat with 0%nat by reflexivity.
-    simpl skipn. apply be_dec_enc. rewrite p4. lia.
+  - replace (skipn 4 (be_enc 3 T_REQUEST_MESSAGE ++ [STRUCT_CODE] ++ be_enc 4 (zlen mbody))%list)
+      with (be_enc 4 (zlen mbody)) by reflexivity.
+    apply be_dec_enc. rewrite p4. lia.
 Qed.
 
